@@ -26,7 +26,7 @@ CASE_TIMEOUT_S = 900
 STUBS = cv_sched.STUBS
 PROBES = ['kind_sched', 'kind_fault', 'kind_timeout', 'kind_oneshot', 'callNovelORF_nonempty',
           'callAltTranslation_nonempty', 'threads_gt_1', 'faulted_execution', 'retried_execution',
-          'index_dir_pool', 'peptides_checked', 'table_rows_checked', 'il_equivalent_in_pool_exists']
+          'index_dir_pool', 'peptides_checked', 'table_rows_checked', 'min_mw_gt_500', 'length_limits_nondefault']
 RULE = ('every completed execution of: (sched) reference + perturbed callVariant executions of engine cv-sched; '
         '(fault) execution with injected unit failures under --skip-failed; (timeout) execution with virtual alarms '
         'and retries; (oneshot) callNovelORF and callAltTranslation on the generated reference with random flags. '
@@ -48,6 +48,17 @@ def tasks(seed, tier, n):
     return [{'case': i, 'mode': 'main', 'kind': kinds[i % len(kinds)], 'hclass': i % 4} for i in range(n)]
 
 
+def aim_at_limits(seed, idx, case):
+    """C04 is about limits: draw mass / length limits that actually bind (the defaults 500 Da / 7 aa hardly
+    ever do), per case, from the case PRNG."""
+    rng = R.case_rng(seed, ENGINE, idx, 'limits')
+    cfg = dict(case['config'])
+    cfg['min_mw'] = rng.choice([500., 500., 800., 1000., 1200., 1500.])
+    cfg['min_length'] = rng.choice([5, 6, 7, 7, 9])
+    cfg['max_length'] = rng.choice([12, 18, 25, 25, 40])
+    return dict(case, config=cfg)
+
+
 def pool_for(ref, files, out, cfg, cache):
     key = (ref.get('index_dir') or ref['gtf'], R.digest({k: cfg.get(k) for k in (
         'cleavage_rule', 'cleavage_exception', 'miscleavage', 'min_mw', 'min_length', 'max_length',
@@ -67,6 +78,10 @@ def check_run(out, task, seed, case, run, ref, files, outp, cfg, what, cache, re
     c.update(cfg)
     bad = c04mon.check_callvariant(run, pool, c)
     out['executions'] += 1
+    if float(c['min_mw']) > 500:
+        out['probes']['min_mw_gt_500'] = out['probes'].get('min_mw_gt_500', 0) + 1
+    if c['min_length'] < 7 or c['max_length'] < 25:
+        out['probes']['length_limits_nondefault'] = out['probes'].get('length_limits_nondefault', 0) + 1
     out['probes']['peptides_checked'] = out['probes'].get('peptides_checked', 0) + len(run.fasta)
     out['probes']['table_rows_checked'] = out['probes'].get('table_rows_checked', 0) + len(run.table)
     if ref.get('index_dir'):
@@ -90,6 +105,7 @@ def check_run(out, task, seed, case, run, ref, files, outp, cfg, what, cache, re
 
 def run_sched(seed, task, out, only=None):
     case, perts = cv_sched.gen(seed, task['case'])
+    case = aim_at_limits(seed, task['case'], case)
     cache = {}
     with cvcase.Scratch('c04s_') as wd:
         plans = [('ref', {'layout': cvcase.reference_layout(case), 'threads': 1, 'sched': cv_sched.REF_SCHED})]
@@ -108,6 +124,7 @@ def run_sched(seed, task, out, only=None):
 
 def run_fault(seed, task, out):
     case, rng = cv_fault.gen(seed, task['case'])
+    case = aim_at_limits(seed, task['case'], case)
     threads = rng.choice([1, 2, 3])
     sched = {'pool_seed': rng.getrandbits(32), 'salt': rng.choice([0, rng.getrandbits(30) | 1])}
     cache = {}
@@ -132,6 +149,7 @@ def run_fault(seed, task, out):
 
 def run_timeout(seed, task, out):
     case, rng = cv_timeout.gen(seed, task['case'])
+    case = aim_at_limits(seed, task['case'], case)
     threads = rng.choice([1, 2])
     sched = {'pool_seed': rng.getrandbits(32), 'salt': 0}
     cache = {}
@@ -198,6 +216,7 @@ def run_oneshot(seed, task, out, only=None):
             line = line.rstrip().rstrip(';') + f'; gene_type {"protein_coding" if tx in coding else "lncRNA"};'
         gtf_lines.append(line)
     case = dict(case, texts=dict(case['texts'], gtf='\n'.join(gtf_lines) + '\n'))
+    case = aim_at_limits(seed, task['case'], case)
     cfg = dict(cvrun.DEFAULT_CONFIG)
     cfg.update(case['config'])
     use_index = rng.random() < 0.3
